@@ -753,21 +753,21 @@ func main() {
 		r.Note("observation x%d: %s", n, o)
 	}
 	cov := map[string]any{
-		"evaluations":          evals,
-		"distinct_nontrivial":  len(certClasses),
-		"rule":                 "a case is one certificate (or one block h+1 around one last-certificate) fed to HandlePeerBlock on a node at the height under test; distinct_nontrivial counts distinct (sorted set of deviation classes, outcome) pairs, e.g. 'field-phase+sig-from-phase=>rejected'; byte-identical certificates are fed once",
-		"per_config_part":      table,
-		"rejection_reasons":    errs,
-		"class_outcomes":       certClasses,
-		"valid_but_rejected":   validRejects,
-		"observations":         obs,
-		"worlds_rebuilt":       rebuilds,
-		"worker_cpu_seconds":   float64(cpu) / 1000,
-		"configs":              configs,
-		"pairs_in_this_tier":   !quick,
-		"committee_change":     fmt.Sprintf("block 1 raises the last validator's stake to %d units; root height 1 = genesis committee, root heights >= 2 = new committee", bump),
-		"height_under_test":    3,
-		"fastsync_configs":     fs,
+		"evaluations":         evals,
+		"distinct_nontrivial": len(certClasses),
+		"rule":                "a case is one certificate (or one block h+1 around one last-certificate) fed to HandlePeerBlock on a node at the height under test; distinct_nontrivial counts distinct (sorted set of deviation classes, outcome) pairs, e.g. 'field-phase+sig-from-phase=>rejected'; byte-identical certificates are fed once",
+		"per_config_part":     table,
+		"rejection_reasons":   errs,
+		"class_outcomes":      certClasses,
+		"valid_but_rejected":  validRejects,
+		"observations":        obs,
+		"worlds_rebuilt":      rebuilds,
+		"worker_cpu_seconds":  float64(cpu) / 1000,
+		"configs":             configs,
+		"pairs_in_this_tier":  !quick,
+		"committee_change":    fmt.Sprintf("block 1 raises the last validator's stake to %d units; root height 1 = genesis committee, root heights >= 2 = new committee", bump),
+		"height_under_test":   3,
+		"fastsync_configs":    fs,
 	}
 	r.Finish(cov)
 }
